@@ -21,7 +21,7 @@ PLAIN_UN = ['UnaryMinus', 'exp', 'sin', 'cos', 'bioNormalCdf', 'PowerConstant']
 PLAIN_BIN = ['Plus', 'Minus', 'Times', 'bioMin', 'bioMax', 'And', 'Or', 'Equal', 'NotEqual', 'LessOrEqual',
              'GreaterOrEqual', 'Less', 'Greater']
 SPECIAL = ['MonteCarlo', 'Integrate', 'PanelLikelihoodTrajectory', 'bioMultSum', 'BelongsTo', 'Elem', 'ConditionalSum',
-           'bioLinearUtility', '_bioLogLogit', '_bioLogLogitBadKeys', '_bioLogLogitFullChoiceSet', 'Catalog']
+           'bioLinearUtility', '_bioLogLogit', '_bioLogLogitBadKeys', '_bioLogLogitKeys', '_bioLogLogitFullChoiceSet', 'Catalog']
 
 
 def module(panel: bool, thin, special=None) -> str:
@@ -146,6 +146,11 @@ class Builder:
             util = {key: k[1 + 2 * j] for j, key in enumerate(n['keys'])}
             av = {key: k[2 + 2 * j] for j, key in reversed(list(enumerate(n['avkeys'])))}
             return _bioLogLogit(util, av, k[0])
+        if op == '_bioLogLogitKeys':
+            nk = len(n['keys'])
+            util = {key: k[1 + j] for j, key in enumerate(n['keys'])}
+            av = {key: k[1 + nk + j] for j, key in enumerate(n['avkeys'])}
+            return _bioLogLogit(util, av, k[0])
         if op == '_bioLogLogitFullChoiceSet':
             return _bioLogLogitFullChoiceSet({key: k[1 + j] for j, key in enumerate(n['keys'])}, k[0])
         if op == 'Catalog':
@@ -163,6 +168,8 @@ def describe(ops, root, nl=len(LEAVES)) -> str:
         extra = f"[{n['name']}]" if n['name'] else ''
         if n['op'] == '_bioLogLogit' and n['keys'] != n['avkeys']:
             extra = '[av keys differ]'
+        if n['op'] == '_bioLogLogitKeys':
+            extra = f"[util {n['keys']} av {n['avkeys']}]"
         return f"{n['op']}{extra}(" + ', '.join(go(j) for j in n['kids']) + ')'
 
     return go(root)
@@ -193,13 +200,16 @@ def run_entry_points(rec) -> dict:
         b = bio.BIOGEME(d, e, number_of_draws=5)
         return True
 
-    def biogeme_dict_ctor():
+    def biogeme_dict_ctor(key='log_like'):
         import biogeme.biogeme as bio
 
         d = database(panel)
         e = Builder(rec['ops']).build(rec['root'])
-        b = bio.BIOGEME(d, {'log_like': e}, number_of_draws=5)
+        b = bio.BIOGEME(d, {key: e}, number_of_draws=5)
         return True
+
+    def biogeme_dict_ctor2():
+        return biogeme_dict_ctor('loglike')     # the other documented spelling of the key
 
     def value():
         d = database(panel)
@@ -208,7 +218,7 @@ def run_entry_points(rec) -> dict:
         return [float(x) for x in v]
 
     out = {}
-    eps = (('BIOGEME', biogeme_ctor), ('BIOGEME(dict)', biogeme_dict_ctor)) if rec['estimation'] else (('get_value_c', value),)
+    eps = (('BIOGEME', biogeme_ctor), ('BIOGEME(dict)', biogeme_dict_ctor), ('BIOGEME(dict:loglike)', biogeme_dict_ctor2)) if rec['estimation'] else (('get_value_c', value),)
     for name, fn in eps:
         res = forked(fn, timeout=20)
         out[name] = (classify(res), (res[1][2] if res[0] == 'exc' else '')[:200])
